@@ -9,7 +9,7 @@ SPEC = {
         "C19_relaxed_total", "C19_descent_bounded", "C19_wrapper_invariance", "C19_wrapper_invariance_file",
         "C19_seq_parent_irrelevant", "C19_nonvacuous", "C19_nonvacuous_embedded"]},
     "harness_args": lambda tier: ["C19", "--n", 500 if tier == "quick" else 12000],
-    "search_args": lambda tier: ["C19", "--n", 3000],
+    "search_args": lambda tier: ["C19", "--n", 1000],
     "level": "proof",
     "trusted_base": [
         "Coq 8.16.1 kernel + VM (vm_compute for the refutation witnesses, the non-vacuity example and correspondence); "
